@@ -112,6 +112,18 @@ def realize(case):
     return c
 
 
+def in_tz(case, dt):
+    """the same instant written as an aware datetime of a NON-UTC zone ("tz": offset in hours)"""
+    if case.get("tz") is None:
+        return dt
+    return dt.astimezone(timezone(timedelta(hours=case["tz"])))
+
+
+def gen_tz(rng, c, p=0.4):
+    if c.get("abs") and rng.random() < p:
+        c["tz"] = rng.choice([-11, -5, 2, 9])
+
+
 def gen_opsched(rng, c, p=0.25):
     """the operator gets the scheduler of the timeline as its own `scheduler=` argument and the subscription a different one"""
     if rng.random() < p:
